@@ -119,8 +119,12 @@ func runFile(c *fw.Ctx, f filedrv.File) {
 	}
 	// bit flips
 	data := make([]byte, len(f.Data))
+	pstride := 23
+	if len(f.Data) > 1<<16 {
+		pstride = 499
+	}
 	for si, s := range sites(f) {
-		if f.Big && s.kind == "payload" && si%23 != 0 {
+		if f.Big && s.kind == "payload" && si%pstride != 0 {
 			continue
 		}
 		for bit := 0; bit < 8; bit++ {
@@ -232,7 +236,7 @@ func init() {
 			if tier == "thorough" {
 				n = 4
 			}
-			return fmt.Sprintf("file family {3 schemas} × {null,deflate,snappy} × every composition of <=%d records into blocks (+70-record blocks), written by the reference writer; per file: intact read under 3 reader modes × value/pointer target; callback failing at every record index; EVERY BIT of every block sync marker, of the header sync (when a block exists), of every snappy CRC, of every compressed payload byte (deflate, snappy) and of the magic flipped one at a time; metadata variants (schema removed, codec absent/unknown spellings, reordered, extra keys); a case is one damaged or intact file; non-trivial = ReadFile completed and its result was compared with the oracle", n)
+			return fmt.Sprintf("file family {3 schemas} × {null,deflate,snappy} × every composition of <=%d records into blocks (+70-record blocks; + per codec two Big files: a 3000-record highly compressible block, and a 3/90/3-record file whose middle block exceeds 100 KiB on the wire so that the reader's buffer grows mid-block — for Big files payload bytes are flipped at every 23rd / 499th site, all other sites fully), written by the reference writer; per file: intact read under 3 reader modes × value/pointer target; callback failing at every record index; EVERY BIT of every block sync marker, of the header sync (when a block exists), of every snappy CRC, of every compressed payload byte (deflate, snappy) and of the magic flipped one at a time; metadata variants (schema removed, codec absent/unknown spellings, reordered, extra keys); a case is one damaged or intact file; non-trivial = ReadFile completed and its result was compared with the oracle", n)
 		},
 		Assumptions: []string{
 			"for a flipped payload bit the claim is made only when the reference decompressor (stdlib flate / golang/snappy + CRC) rejects the damaged payload; flips it accepts are counted, not judged",
